@@ -24,7 +24,7 @@ func init() {
 			"T3 with both look-aheads pending the selector is applied to (first head, second head) in this order and the first head is emitted iff it returned true; with one pending that one is emitted only after the other source reported exhaustion; (zero,false) is returned only when both are exhausted; " +
 			"T4 HasNext is idempotent (no further environment call) and agrees with the following Next; " +
 			"T6 the package's iterator constructors return the same reset capability on every path; " +
-			"T5 a successful Reset restores exactly the state Init establishes (every field iteration writes), and fails with an error otherwise. T7: the same merge-step clauses T1-T4 hold from every state reached through a Reset that returned an error (sources that were not reset keep position and look-ahead, sources that were reset restart).",
+			"T5 a successful Reset restores exactly the state Init establishes (every field iteration writes), and fails with an error otherwise. T7: the same merge-step clauses T1-T4 hold from every state reached through a Reset that returned an error (sources that were not reset keep position and look-ahead, sources that were reset restart). T8: Init sets every boolean/integer control field, so a Mixer may be initialised again (the statement speaks of the mixer, not of a Mixer value used once).",
 		NotDecided: "the merged sequence as a value (induction over the inputs); behaviour of ill-behaved sources whose HasNext is not monotone.",
 	})
 }
@@ -223,6 +223,37 @@ func runC18(c *Ctx) {
 	stateKey := func(st *ai.State) string { return implKey(st) + "||" + getM(st).key() }
 	initImpl := implKey(initState)
 	c.Role("mixer.initial-state", initImpl, mixer.Obj().Pos())
+	// T8: Init sets every control field (booleans and integers of the Mixer and of the structs embedded in it by value).
+	// A field Init leaves alone keeps the value of the Mixer's previous use: the first merge of a Mixer works (zero
+	// value), a Mixer that is initialised again continues in the middle of its previous merge.
+	{
+		var unset []string
+		var walk func(path string, t types.Type, depth int)
+		walk = func(path string, t types.Type, depth int) {
+			if depth > 3 {
+				return
+			}
+			switch u := t.Underlying().(type) {
+			case *types.Struct:
+				for i := 0; i < u.NumFields(); i++ {
+					walk(path+"."+u.Field(i).Name(), u.Field(i).Type(), depth+1)
+				}
+			case *types.Basic:
+				if u.Info()&(types.IsBoolean|types.IsInteger) != 0 {
+					if _, set := initState.Mem[path]; !set {
+						unset = append(unset, path)
+					}
+				}
+			}
+		}
+		walk("M", mixer, 0)
+		sort.Strings(unset)
+		c.Decide("C18.T8", initFn, "Init sets every control field", nil, len(unset) == 0,
+			"Init leaves "+strings.Join(unset, ", ")+" as it was: a Mixer that is initialised a second time starts its merge in the control state its previous use ended in (elements are skipped, or zero values are emitted)")
+		if len(unset) > 0 {
+			return
+		}
+	}
 
 	// explore the reachable (implementation x model) states
 	seen := map[string]*ai.State{}
